@@ -11,6 +11,7 @@ COMMON_TRUSTED = [
 
 # (file under coq/Gen, acra-vh arguments that print it): regenerated from /repo on every run
 GENERATORS = [
+    ("Prec.v", ["sqlprec"]),
     ("SqlSchema.v", ["sqlschema"]),
     ("TlsWrapper.v", ["tlswrapper"]),
     ("IsoTokenConsts.v", ["isotokenconsts"]),
@@ -29,6 +30,28 @@ def dom(name, run_mod, nq, nt, model=True):
 
 
 PROPS = {
+    "C13": {
+        "domains": [
+            {
+                "name": "c13",
+                "run_vo": "Model/RunSqlExpr.vo",
+                "n_quick": 250,
+                "n_thorough": 4000,
+                "model": True
+            }
+        ],
+        "level": "proof on the expression fragment (partial); differential oracle on the whole grammar",
+        "trusted": [
+            "Gen/Prec.v regenerated on every run from sqlparser/sql.y (%left/%right/%nonassoc table, %prec of the prefix rules), the compiled operator strings/ValType enum of sqlparser and sqltypes.SQLEncodeMap/SQLDecodeMap",
+            "modelled, not verified: the tokenizer outside string literals (identifier quoting, numbers, comments, keywords); the model's printer emits TOKENS and is tied to Format+Tokenizer by replay (OPrint), the model's parser to sql.go (goyacc output) by replay (OParse)",
+            "outside the model (differential oracle Parse(String(t)) = t only): DDL, table expressions/joins, sub-selects, UNION, CASE, CAST/CONVERT, INTERVAL, COLLATE, JSON operators, casts (::type), qualified/DISTINCT function calls, aliases, ORDER/GROUP/LIMIT, INSERT/UPDATE/DELETE clause level",
+            "sql.go is the goyacc output committed in /repo; it is what runs. A change of sql.y alone changes Gen/Prec.v (proofs then fail) but not the running parser"
+        ],
+        "assumptions": [
+            "wf e (= the tree is one the yacc parser can build) as the premise of the round-trip theorems; subst_ok (replacement literal well-formed, no non-integer -> integer change) for substitution",
+            "escape round trip: text after the literal does not start with a quote (a doubled quote continues the literal)"
+        ]
+    },
     "C16": {
         "domains": [
             {
